@@ -13,7 +13,7 @@ Open Scope string_scope.
 
 (** value constraint of an option: none, or membership in a finite set (JSON
     schema enum/const, validator oneof); values are rendered as text *)
-Inductive constr := CAny | CEnum (vals : list string).
+Inductive constr := CAny | CEnum (vals : list string) | CRange (lo hi : Z).
 
 (** required: yes / no / conditionally (required_without, oneOf ... : not compared) *)
 Inductive req := RYes | RNo | RCond.
@@ -41,6 +41,7 @@ Definition constr_eqb (a b : constr) : bool :=
   match a, b with
   | CAny, CAny => true
   | CEnum x, CEnum y => subset x y && subset y x
+  | CRange a b, CRange a' b' => Z.eqb a a' && Z.eqb b b'
   | _, _ => false
   end.
 
@@ -96,15 +97,16 @@ Definition row_agrees (s l : table) (r : row) : bool :=
       end
   end.
 
-(** recorded disagreements (C20-F1): the generated file proves that every other
-    row of the current tables agrees; SchemaPinned.v shows that each of these
-    rows disagrees in the tables as they were extracted when the finding was
-    recorded (whether they still do on the current tree is what the replay
-    stream reports on every run) *)
-Definition known_F1 : list row :=
+(** recorded disagreements (C20-F1), in two groups with one candidate repair each
+    (fixes/C20-F1a.diff: the schema is wrong; fixes/C20-F1b.diff: the loader does
+    not validate).  The generated file proves that every other row of the current
+    tables agrees; SchemaPinned.v shows that each of these rows disagrees in the
+    tables as they were extracted when the finding was recorded (whether they
+    still do on the current tree is what the replay stream reports on every
+    run). *)
+Definition known_F1a : list row :=
   [ RType "error_handlers" "www-authenticate";      (* the schema's spelling *)
-    RType "error_handlers" "www_authenticate";      (* the loader's spelling *)
-    ROpt "error_handlers" "redirect" "code";        (* enum {301,302} only in the schema *)
+    RType "error_handlers" "www_authenticate";      (* the loader's (and the documentation's) spelling *)
     (* the schema lets `config` be absent although the loader requires options in it *)
     RCfg "authenticators" "basic_auth";
     RCfg "authenticators" "generic";
@@ -114,14 +116,25 @@ Definition known_F1 : list row :=
     RCfg "authorizers" "remote";
     RCfg "finalizers" "jwt" ].
 
-Definition guard_F1 (r : row) : bool := existsb (row_eqb r) known_F1.
+Definition known_F1b : list row :=
+  [ ROpt "error_handlers" "redirect" "code" ].      (* enum {301,302} only in the schema *)
+
+Definition known_F1 : list row := known_F1a ++ known_F1b.
+
+(** [fa]/[fb]: the repair of the group is in the tree, its rows are no longer excused *)
+Definition guard_F1 (fa fb : bool) (r : row) : bool :=
+  existsb (row_eqb r) ((if fa then [] else known_F1a) ++ (if fb then [] else known_F1b)).
+
+(** flipped by hand when a repair is applied to /repo *)
+Definition fixed_F1a : bool := false.
+Definition fixed_F1b : bool := false.
 
 Definition disagreements (s l : table) : list row :=
   filter (fun r => negb (row_agrees s l r)) (all_rows s l).
 
 (** the finite statement checked over the regenerated tables *)
-Definition tables_ok (s l : table) : bool :=
-  forallb (fun r => guard_F1 r || row_agrees s l r) (all_rows s l).
+Definition tables_ok (fa fb : bool) (s l : table) : bool :=
+  forallb (fun r => guard_F1 fa fb r || row_agrees s l r) (all_rows s l).
 
 (** every recorded row is a row of the tables on which they disagree (no stale guard) *)
 Definition recorded_all_disagree (s l : table) : bool :=
@@ -137,8 +150,28 @@ Record probe := {
   p_config : bool;                       (* the definition has a config object *)
   p_opts : list (string * string) }.
 
+(** decimal text of an integer *)
+Fixpoint digits_to_N (acc : N) (s : string) : option N :=
+  match s with
+  | EmptyString => Some acc
+  | String c r =>
+      let n := N_of_ascii c in
+      if ((48 <=? n) && (n <=? 57))%N then digits_to_N (acc * 10 + (n - 48))%N r else None
+  end.
+
+Definition z_of_text (s : string) : option Z :=
+  match s with
+  | EmptyString => None
+  | String "-" r => match r with EmptyString => None | _ => option_map (fun n => (- Z.of_N n)%Z) (digits_to_N 0%N r) end
+  | _ => option_map Z.of_N (digits_to_N 0%N s)
+  end.
+
 Definition value_ok (c : constr) (v : string) : bool :=
-  match c with CAny => true | CEnum vals => existsb (String.eqb v) vals end.
+  match c with
+  | CAny => true
+  | CEnum vals => existsb (String.eqb v) vals
+  | CRange lo hi => match z_of_text v with Some z => (lo <=? z)%Z && (z <=? hi)%Z | None => false end
+  end.
 
 Definition accepts (t : table) (p : probe) : bool :=
   match find_mech t (p_kind p) (p_type p) with
@@ -155,7 +188,7 @@ Definition probe_rows (p : probe) : list row :=
   RType (p_kind p) (p_type p) ::
   (if p_config p then [] else [RCfg (p_kind p) (p_type p)]) ++ map (fun nv => ROpt (p_kind p) (p_type p) (fst nv)) (p_opts p).
 
-Definition probe_guard (p : probe) : bool := existsb guard_F1 (probe_rows p).
+Definition probe_guard (fa fb : bool) (p : probe) : bool := existsb (guard_F1 fa fb) (probe_rows p).
 
 (* short constructors for the generated file *)
 Definition mk_opt n r c := {| o_name := n; o_req := r; o_constr := c |}.
